@@ -71,6 +71,7 @@ type Ctx struct {
 	panicsWithSet bool
 	// recovery modelling: value returned by recover() on a simulated panic path
 	recoverTerm   string
+	ufloatLits    map[string]uint64
 	recoverCalled bool
 	prog     *Program
 	mode     Mode
@@ -450,6 +451,13 @@ func (c *Ctx) strLit(s string) string {
 	c.strLits[s] = n
 	c.decl(fmt.Sprintf("(declare-fun %s () Str) ; %q", n, truncStr(s, 40)))
 	c.decl(fmt.Sprintf("(assert (= (strlen %s) %d))", n, len(s)))
+	if len(s) <= 64 {
+		// bytes of short literals (needed where code converts them to []byte)
+		c.declOnce("strat", "(declare-fun strat (Str Int) Int)\n(assert (forall ((s Str) (i Int)) (! (and (>= (strat s i) 0) (<= (strat s i) 255)) :pattern ((strat s i)))))")
+		for i := 0; i < len(s); i++ {
+			c.decl(fmt.Sprintf("(assert (= (strat %s %d) %d))", n, i, s[i]))
+		}
+	}
 	return n
 }
 
@@ -509,8 +517,18 @@ func (c *Ctx) floatLit(v float64) string {
 		bits := math.Float64bits(v)
 		return fmt.Sprintf("(fp #b%01b #b%011b #b%052b)", bits>>63, (bits>>52)&0x7ff, bits&((1<<52)-1))
 	case ModeUFloat:
+		// literals are distinct uninterpreted constants; their bit patterns are only
+		// asserted in queries that use Float64bits/Float64frombits (see queryVariant)
 		bits := math.Float64bits(v)
-		return fmt.Sprintf("(fofbits #x%016x)", bits)
+		n := fmt.Sprintf("flc_%016x", bits)
+		if c.ufloatLits == nil {
+			c.ufloatLits = map[string]uint64{}
+		}
+		if _, ok := c.ufloatLits[n]; !ok {
+			c.ufloatLits[n] = bits
+			c.decl(fmt.Sprintf("(declare-fun %s () F)", n))
+		}
+		return n
 	}
 	if math.IsInf(v, 0) || math.IsNaN(v) {
 		// real mode has no infinities: uninterpreted symbolic constants
@@ -891,6 +909,30 @@ func (o *Obligation) queryVariant(extra []string, variant int) string {
 		body = strings.Replace(body, "(declare-fun fofbits ((_ BitVec 64)) F)", "", 1)
 		if strings.Contains(body, "(fbits ") || strings.Contains(body, "(fofbits ") {
 			ax = "(assert (forall ((x F)) (! (= (fofbits (fbits x)) x) :pattern ((fbits x)))))\n(assert (forall ((b (_ BitVec 64))) (! (= (fbits (fofbits b)) b) :pattern ((fofbits b)))))"
+		}
+		var names []string
+		for n := range c.ufloatLits {
+			names = append(names, n)
+		}
+		sort.Strings(names)
+		var lits strings.Builder
+		for _, n := range names {
+			if !strings.Contains(q, "(declare-fun "+n+" () F)") {
+				continue
+			}
+			if ax != "" {
+				fmt.Fprintf(&lits, "\n(assert (= %s (fofbits #x%016x)))", n, c.ufloatLits[n])
+			}
+		}
+		ax += lits.String()
+		var present []string
+		for _, n := range names {
+			if strings.Contains(q, "(declare-fun "+n+" () F)") {
+				present = append(present, n)
+			}
+		}
+		if len(present) >= 2 {
+			ax += "\n(assert (distinct " + strings.Join(present, " ") + "))"
 		}
 		q = strings.Replace(q, "@@FBITS-LATER@@", ax, 1)
 	}
